@@ -25,7 +25,7 @@ from . import crash as K
 
 PID = "C15"
 MODEL_TARGETS = ["theories/Crash/FailInst.vo", "theories/Conc/PipeFail.vo"]
-PARAM_SECTIONS = ["c15"]
+PARAM_SECTIONS = ["c15", "wal"]
 TRUSTED = [
     "LD_PRELOAD recorder and fault injector shim/shim.c (one fault plan per process: the n-th matching write/fsync fails; "
     "short writes are real short writes) and the file-system simulator tools/vlib/crash.py (crash models of C02)",
